@@ -174,18 +174,31 @@ def work(job: tuple) -> dict:
         if t.returncode != 0:
             return {"key": key, "k": k, "status": "killed-by-tests", "desc": mt.desc}
         env2 = dict(os.environ, PYVC_REPO_SRC=dst)
-        code = ("import sys, json, importlib\nsys.path.insert(0,'/verif')\nfrom pyvc.verify import verify_function\n"
-                f"world, lib, reg, lem = importlib.import_module({area!r}).build()\nr = verify_function(world, lib, reg.contracts[{key!r}])\n"
-                "bad=[(o.name, o.status) for o in r.failed()]\nprint('RESULT '+json.dumps({'status': r.status, 'error': str(r.error)[:150], 'failed': bad[:4], 'n': len(r.obligations)}))")
+        # every contract (variant, area) written for this function, or for a def nested in it, is re-verified
+        code = ("import sys, json, importlib\nsys.path.insert(0,'/verif')\nfrom pyvc.verify import verify_function\nfrom pyvc.props import PROPS\n"
+                "areas=[]\n"
+                "for sp in PROPS.values():\n"
+                "    for a in sp.get('areas', []):\n"
+                "        if a not in areas: areas.append(a)\n"
+                "status='ok'; err=''; bad=[]; n=0\n"
+                "for a in areas:\n"
+                "    world, lib, reg, lem = importlib.import_module(a).build()\n"
+                "    for c in reg.all():\n"
+                f"        if (c.fn == {fn!r} or c.fn.startswith({fn!r} + '.')) and not c.trusted and c.source is None:\n"
+                "            r = verify_function(world, lib, c)\n"
+                "            n += len(r.obligations)\n"
+                "            if r.status != 'ok': status, err = r.status, str(r.error)[:150]\n"
+                "            bad += [(o.name, o.status) for o in r.failed()]\n"
+                "print('RESULT '+json.dumps({'status': status, 'error': err, 'failed': bad[:6], 'n': n}))")
         p = subprocess.run(["/verif/.venv/bin/python", "-c", code], capture_output=True, text=True, env=env2, timeout=900)
         line = [l for l in p.stdout.split("\n") if l.startswith("RESULT ")]
         if not line:
             return {"key": key, "k": k, "status": "checker-crash", "desc": mt.desc, "error": p.stderr[-200:]}
         r = json.loads(line[0][7:])
-        if r["status"] != "ok":
-            verdict = "undecided"
-        elif any(s == "refuted" for _, s in r["failed"]):
+        if any(s == "refuted" for _, s in r["failed"]):
             verdict = "refuted"
+        elif r["status"] != "ok":
+            verdict = "undecided"
         elif r["failed"]:
             verdict = "undecided"
         else:
